@@ -104,6 +104,9 @@ type Exec struct {
 	frozenNow *Term
 	stubCalls int
 	noPrune bool
+	cuts    map[string]bool
+	fullTimeout int
+	freshRetries int
 }
 
 func (e *Exec) fresh(prefix string, s Sort) *Term {
@@ -171,6 +174,16 @@ func (e *Exec) assumeChecked(c *Term) {
 func (e *Exec) check(extra *Term) string {
 	e.queries++
 	r := e.solver.CheckWith(extra)
+	if r == "unknown" {
+		ns := e.solver.Fresh(e.fullTimeout)
+		ns.Assert(extra)
+		r = ns.Check()
+		e.solver.Queries++
+		e.solver.Time += ns.Time
+		e.solver.Errors += ns.Errors
+		ns.Close()
+		e.freshRetries++
+	}
 	if r == "unknown" {
 		e.unknowns++
 		if e.run != nil {
@@ -405,6 +418,17 @@ func (e *Exec) callValue(th *Thread, fr *Frame, dst ssa.Value, fv Val, args []Va
 	name := f.fn.String()
 	if f.fn.Origin() != nil {
 		name = f.fn.Origin().String()
+	}
+	if e.cuts != nil && e.cuts[name] {
+		if dst != nil {
+			fr.locals[dst] = zeroVal(f.fn.Signature.Results())
+			if f.fn.Signature.Results().Len() == 1 {
+				fr.locals[dst] = zeroVal(f.fn.Signature.Results().At(0).Type())
+			} else if f.fn.Signature.Results().Len() == 0 {
+				fr.locals[dst] = nil
+			}
+		}
+		return
 	}
 	if stub, ok := stubs[name]; ok {
 		res := stub(e, th, &CallCtx{fr: fr, dst: dst, fn: f.fn, cc: cc}, args)
